@@ -25,7 +25,9 @@ WORKERS = 24
 RULE = ("one run = one manager (real comm.server.TCPServer.run and the socketserver class it names) "
         "with 2..16 simulated clients connecting at drawn instants and each sending one request with "
         "unique contents (sign hash / authorized sign / advanceBlockchain / updateAncestorBlock / "
-        "blockchainState / signerHeartbeat / getPubKey), lines optionally fragmented; device answers "
+        "blockchainState / signerHeartbeat / uiHeartbeat / getPubKey), lines optionally fragmented; device "
+        "speed drawn per run (fast / mixed / slow: answers up to 6 s); one run in three injects one link "
+        "fault or a fatal status word at a drawn exchange; device answers "
         "after drawn latencies; the scheduler draws which task runs at every yield and which queued "
         "connection is accepted; non-trivial = at least two requests were in flight or queued at the "
         "same time; distinct = (accept order, backlog depth at each accept, schedule decision hash)")
